@@ -118,6 +118,27 @@ theorem C09_release_ok_history (g0 : GslbConf) (bc0 : TableConf) (hist : List (G
     | cons p r ih => intro st h; exact ih _ (reload_ok st p.1 p.2 h)
   exact gen hist _ (init_ok g0 bc0)
 
+/-- A configuration file rejected by the loaders leaves the table and every backend exactly as they were (nothing is
+    released, nothing re-weighted); and the release discipline holds for every history that mixes API reloads, file
+    reloads and rejected files. -/
+theorem C09_rejected_file_changes_nothing (st : St) (g : GslbConf) (bc : TableConf) (h : confValid g bc = false) :
+    fileReload st g bc = st := by
+  simp [fileReload, h]
+
+theorem C09_release_ok_mixed_history (st : St) (h : ReleaseOk st) (hist : List (Bool × GslbConf × TableConf)) :
+    ReleaseOk (runMixed st hist) := by
+  induction hist generalizing st with
+  | nil => exact h
+  | cons p r ih =>
+    obtain ⟨f, g, bc⟩ := p
+    cases f with
+    | false => exact ih _ (reload_ok st g bc h)
+    | true =>
+      simp only [runMixed, fileReload]
+      split
+      · exact ih _ (reload_ok st g bc h)
+      · exact ih _ h
+
 /-- No object is ever released twice: the close-of-closed-channel panic is unreachable. -/
 theorem C09_release_le_one (g0 : GslbConf) (bc0 : TableConf) (hist : List (GslbConf × TableConf)) :
     (∀ b ∈ tableObjs (runHist g0 bc0 hist) ++ (runHist g0 bc0 hist).grave, b.released ≤ 1) ∧
